@@ -150,3 +150,17 @@ def synthetic_grid(T, dt=None, tz=None, unit='h'):
         tg.dt = np.asarray(d.values, dtype=float)
         tg.Dt = np.cumsum(tg.dt)
     return tg, synthetic
+
+
+def realisable_wacc(P):
+    """discount factors are a transcendental function of wacc and elapsed time, so a model's g_df values are
+    not realisable directly: if the model needs factors different from 1, replay uses a non-zero wacc (the real
+    factors are then recomputed from the real grid on both sides of the comparison)"""
+    P = Params(P)
+    w = float(P.get('wacc', 0.0) or 0.0)
+    if any(abs(float(x) - 1.0) > 1e-9 for x in P.get('g_df', [])) and abs(w) < 1e-9:
+        w = 0.5
+    if w <= -1.0:
+        w = 0.5
+    P['wacc'] = w
+    return P
